@@ -82,11 +82,23 @@ class SLSQPStub:
     the objective closes over (observed through x0) and of the bounds it was given"""
 
     def __call__(self, func, x0, **k):
-        b = k.get('bounds')
-        args = list(x0) + [b[0][0], b[0][1], b[1][0], b[1][1]]
+        b = k.get('bounds') or [(None, None), (None, None)]
+        flat = [b[0][0], b[0][1], b[1][0], b[1][1]]
+        args = list(x0) + [(-12345.0 if v is None else v) for v in flat]
         Ctx.cur.log.append(('slsqp', b))
         loc, scale = uf_of('slsqp', 0, args), uf_of('slsqp', 1, args)
-        Ctx.cur.assume(loc.t >= tz(b[0][0]), loc.t <= tz(b[0][1]), scale.t > 0)
+        cons = []
+        if b[0][0] is not None:
+            cons.append(loc.t >= tz(b[0][0]))
+        if b[0][1] is not None:
+            cons.append(loc.t <= tz(b[0][1]))
+        if b[1][0] is not None:
+            cons.append(scale.t >= tz(b[1][0]))
+        if b[1][1] is not None:
+            cons.append(scale.t <= tz(b[1][1]))
+        # the likelihood is +inf at scale = 0: the optimiser never returns the bound itself
+        cons.append(scale.t != 0)
+        Ctx.cur.assume(*cons)
         return objarr([loc, scale])
 
 
